@@ -27,6 +27,8 @@ type JobOpts struct {
 	Auto    bool   `json:"auto"`
 	Perturb int    `json:"perturb"`
 	Mode    string `json:"mode"` // "" engine run; other modes are dispatched by the worker
+	// HoldPoints restricts the hook points single-hold policies choose from
+	HoldPoints []string `json:"hold_points"`
 }
 
 type Job struct {
@@ -97,7 +99,7 @@ func WorkerMain(args []string) int {
 		p := job.Programs[sch.Prog]
 		// progress marker: lets the parent attribute a crash to this run
 		fmt.Fprintf(out, "{\"run\":%d,\"begin\":true}\n", i)
-		sched.Install(sched.ForRun(job.Opts.Perturb, job.Opts.Seed, i))
+		sched.Install(sched.ForRun(job.Opts.Perturb, job.Opts.Seed, i, job.Opts.HoldPoints))
 		log := drive.Run(i, p, sch, job.Opts.driveOpts())
 		line, _ := json.Marshal(RunLog{Run: i, Log: log})
 		out.Write(append(line, '\n'))
